@@ -34,3 +34,19 @@ package text
 //@   flags nosafety
 //@   decreases e.maxXObjectDepth - e.xobjectDepth, 1
 //@   ensures depth_restored: e.xobjectDepth == old(e.xobjectDepth) && e.maxXObjectDepth == old(e.maxXObjectDepth)
+
+// ---- C08: showing text never disturbs the line matrix or the CTM ----
+// Tj: exactly one fragment, at the current text position; afterwards only the text matrix has moved.
+//@ func (*Extractor) showText
+//@   property C08
+//@   flags nosafety
+//@   ensures one_fragment_at_the_current_position: len(e.fragments) == old(len(e.fragments)) + 1 && (forall k int :: {e.fragments[k]} 0 <= k && k < old(len(e.fragments)) ==> e.fragments[k] == old(e.fragments)[k])
+//@   ensures line_matrix_and_ctm_untouched: e.gs.Text.TextLineMatrix == old(e.gs.Text.TextLineMatrix) && e.gs.CTM == old(e.gs.CTM) && e.gs.Text.Leading == old(e.gs.Text.Leading)
+
+// TJ: strings are shown in array order; numeric adjustments move the text matrix only
+//@ func (*Extractor) showTextArray
+//@   property C08
+//@   flags nosafety
+//@   ensures line_matrix_and_ctm_untouched: e.gs.Text.TextLineMatrix == old(e.gs.Text.TextLineMatrix) && e.gs.CTM == old(e.gs.CTM) && e.gs.Text.Leading == old(e.gs.Text.Leading)
+//@   loop 0:
+//@     invariant e.gs.Text.TextLineMatrix == old(e.gs.Text.TextLineMatrix) && e.gs.CTM == old(e.gs.CTM) && e.gs.Text.Leading == old(e.gs.Text.Leading)
